@@ -251,6 +251,9 @@ def tasks_for(pid, tier):
         for ncpu in (1, 2, 3):
             for v in variants("apply"):
                 kind, n = (v // 5, (0, 1, 2, 3, 5)[v % 5]) if v < 35 else (None, 2)
+                if v >= 39:     # width-2 queue with blocking iterations: overlap is maximal already at k=0
+                    out += ds("apply", 1 if q else 2, [v], ncpu=ncpu, jobs=4)
+                    continue
                 if kind == 5:   # racing barrier: large trees
                     if ncpu == 3 and n >= 3:
                         k = 0 if q else 1
